@@ -61,3 +61,40 @@ impl<'a> Ev<'a> {
         }
     }
 }
+
+/// Interpreter over i64 for the entries that have no f64 counterpart (bit operations, shifts, `Ord`): the recorded DAG is
+/// evaluated with Rust's own integer operations; `None` = the evaluation left the domain where the real code is defined
+/// without panicking (overflow, shift amount out of range, division by zero), such samples are skipped by the self-check.
+pub struct EvZ<'a> { pub env: &'a [i64], pub memo: HashMap<u32, Option<i64>>, pub nodes: &'a [Node] }
+impl<'a> EvZ<'a> {
+    pub fn new(env: &'a [i64], nodes: &'a [Node]) -> Self { EvZ { env, memo: HashMap::new(), nodes } }
+    pub fn val(&mut self, i: u32) -> Option<i64> {
+        if let Some(v) = self.memo.get(&i) { return *v; }
+        let n = self.nodes[i as usize].clone();
+        let v = match n {
+            Node::Var(k) => Some(self.env[k as usize]),
+            Node::Const(b) => { let f = f64::from_bits(b); if f.fract() == 0.0 && f.abs() < 1e15 { Some(f as i64) } else { None } }
+            Node::Un(op, a) => { let x = self.val(a)?; match op { Op1::Neg => x.checked_neg(), Op1::Not => Some(!x), Op1::Abs => x.checked_abs(), _ => None } }
+            Node::Bin(op, a, b) => { let x = self.val(a)?; let y = self.val(b)?; match op {
+                Op2::Add => x.checked_add(y), Op2::Sub => x.checked_sub(y), Op2::Mul => x.checked_mul(y),
+                Op2::Div => x.checked_div(y), Op2::Rem => x.checked_rem(y), Op2::Min => Some(x.min(y)), Op2::Max => Some(x.max(y)),
+                Op2::And => Some(x & y), Op2::Or => Some(x | y), Op2::Xor => Some(x ^ y),
+                Op2::Shl => if (0..64).contains(&y) { Some(x << y) } else { None }, Op2::Shr => if (0..64).contains(&y) { Some(x >> y) } else { None },
+                _ => None } }
+            Node::Fma(a, b, c) => { let x = self.val(a)?; let y = self.val(b)?; let z = self.val(c)?; x.checked_mul(y)?.checked_add(z) }
+            _ => None,
+        };
+        self.memo.insert(i, v);
+        v
+    }
+    /// Ok(None) = Panic leaf, Err = Cut or undefined
+    pub fn tree(&mut self, t: &Tree) -> Result<Option<Out<i64>>, ()> {
+        match t {
+            Tree::Panic(_) => Ok(None),
+            Tree::Cut => Err(()),
+            Tree::Ret(o) => { let mut vals = vec![]; for v in &o.vals { vals.push(self.val(*v).ok_or(())?); } Ok(Some(Out { flags: o.flags.clone(), vals })) }
+            Tree::If(c, a, b) => { let x = self.val(c.a).ok_or(())?; let y = self.val(c.b).ok_or(())?;
+                let r = match c.kind { CondKind::Lt => x < y, CondKind::Eq => x == y }; if r { self.tree(a) } else { self.tree(b) } }
+        }
+    }
+}
